@@ -707,4 +707,15 @@ Example parse_str_runs :
   /\ run_scan 6 E_slice STR_PROG SCAN_PROG ex_in "SliceRead::parse_str" [] (set_index ex_in 1 (init_st [])) [] = OutOfFuel.
 Proof. repeat split; vm_compute; reflexivity. Qed.
 
+(* the SliceRead theorems are about SliceRead / StrRead environments ([is_io E = false]): error positions of an IoRead count the peeked byte
+   (Model/Read.v err_idx), a SliceRead's do not — run under an IoRead environment with a byte "peeked", the two sides place the error differently *)
+Example slice_theorems_need_slice_env :
+  run_scan 60 E_io STR_PROG SCAN_PROG [] "SliceRead::parse_str_bytes" [VBool true; VClo CloBytes] (mkSt [] 0 true DEPTH0) []
+  = Err EofWhileParsingString 1
+  /\ psb_post E_io CloBytes [] (slice_str_loop 2 E_io true (mkSt [] 0 true DEPTH0)) = Err EofWhileParsingString 0.
+Proof. split; vm_compute; reflexivity. Qed.
+
 Print Assumptions string_scanning_is_translated_source.
+Print Assumptions read_parse_str_src.
+Print Assumptions read_parse_str_raw_src.
+Print Assumptions read_ignore_str_src.
